@@ -6,6 +6,7 @@ from core import hx, unhx
 LEAN_MODULE = 'QM.Props.C07'
 THEOREMS = ['Cv.C07_container_keys', 'Cv.C07_pod_keys', 'Cv.C07_volume_keys', 'Cv.C07_network_keys', 'Cv.C07_kube_keys', 'Cv.C07_build_keys', 'Cv.C07_image_keys',
             'Cv.keys_fromContainer', 'Cv.unmanaged_of_keys', 'Cv.keys_startService', 'Cv.C07_managed_conforms',
+            'Cv.C07_container_grows', 'Cv.C07_pod_grows', 'Cv.C07_volume_grows', 'Cv.C07_network_grows', 'Cv.C07_kube_grows', 'Cv.C07_build_grows', 'Cv.grows_of',
             'Cv.C07_container_sections', 'Cv.C07_pod_sections', 'Cv.C07_volume_sections', 'Cv.C07_network_sections', 'Cv.C07_kube_sections', 'Cv.C07_build_sections',
             'Cv.frame_fromContainer', 'Cv.frame_fromPod', 'Cv.frame_fromVolume', 'Cv.frame_fromNetwork', 'Cv.frame_fromKube', 'Cv.frame_fromBuild', 'Cv.sections_of_frame',
             'Cv.C07_start_passthrough', 'Cv.C07_unit_defaults_first', 'Cv.C07_oneshot_keeps_user_choice', 'Cv.C07_killmode_kept',
@@ -22,7 +23,9 @@ LEVEL_TEXT = ('Proof (sections: all seven converters) + oracle (inside [Unit]/[S
               'network / mount / pod references, KillMode, Type/Notify, working directory, Exec lines, one-shot settings), including the monadic folds, '
               'writes only to [Unit] or [Service]. Inside [Unit] and [Service] (and every foreign section), for every (section, key) pair that no converter '
               'manages (Cv.managed lists the 21 managed pairs) the service has exactly the user\'s entries of that key, values and order '
-              '(C07_<type>_keys, a key-level frame calculus over add / set / prepend / add_raw, all handlers, folds and converters). Also proved: default dependencies are prepended, one-shot settings and KillMode=mixed|control-group '
+              '(C07_<type>_keys, a key-level frame calculus over add / set / prepend / add_raw, all handlers, folds and converters); for the '
+              'managed keys other than the five settings written with set, the user\'s entries of the key are a sublist — same values, same order — '
+              'of the service\'s (C07_<type>_grows: the generator only adds). Also proved: default dependencies are prepended, one-shot settings and KillMode=mixed|control-group '
               'are kept when the user set them. The per-key claims inside [Unit]/[Service] are checked on the real converters with user values — '
               'including empty assignments — for every key the converters themselves read or write.')
 LEVEL_NOTE = 'Trusted: Lean kernel; correspondence of the multimap and converter models; the Python statement of the pass-through rule used by the oracle.'
